@@ -90,10 +90,12 @@ class NFA:
 class Builder:
     """fragment combinators; a fragment is (start, end) in self.nfa"""
 
-    def __init__(self, alphabet: Alphabet):
+    def __init__(self, alphabet: Alphabet, ignore_lookaround: bool = False):
         self.A = alphabet
         self.nfa = NFA()
         self.all = frozenset(alphabet.symbols)
+        # over-approximation used by the ambiguity check: an untranslatable look-around is treated as always true
+        self.ignore_lookaround = ignore_lookaround
 
     def sym(self, chars: Iterable[str]) -> tuple[int, int]:
         a, b = self.nfa.new(), self.nfa.new()
@@ -229,6 +231,8 @@ class Builder:
             if direction == -1 and len(sub) == 1 and sub[0][0] in (sc.LITERAL, sc.IN, sc.NOT_LITERAL):
                 chars = frozenset([chr(sub[0][1])]) if sub[0][0] is sc.LITERAL else (self.class_chars(sub[0][1]) if sub[0][0] is sc.IN else self.all - {chr(sub[0][1])})
                 return self.assertion(("notprev" if op is sc.ASSERT_NOT else "prev", chars))
+            if self.ignore_lookaround:
+                return self.empty()
             raise Unsupported("look-ahead / multi-character look-behind")
         raise Unsupported(f"regex construct {op}")
 
